@@ -23,6 +23,12 @@ fn main() {
             let r = vh::threadsx::run(&insts, n);
             std::fs::write(&args[3], r.to_string()).unwrap();
         }
+        Some("corpus") => { // vh corpus <dir with *.trace.ron> <out.ndjson>
+            let mut files: Vec<_> = std::fs::read_dir(&args[2]).unwrap().filter_map(|e| e.ok()).map(|e| e.path()).filter(|p| p.to_string_lossy().ends_with(".trace.ron")).collect();
+            files.sort();
+            let out: Vec<Value> = files.iter().map(|p| { let mut v = vh::tracex::corpus_trace(&p.to_string_lossy()); v["file"] = serde_json::json!(p.file_name().unwrap().to_string_lossy()); v }).collect();
+            write_ndjson(&args[3], &out);
+        }
         Some("valcmp") => { // vh valcmp <universe.json> <out.ndjson>   (one line per value: eq / cmp against every value)
             let u = read_json(&args[2]);
             let r = pure::valcmp(&u);
